@@ -21,7 +21,13 @@ def run(res):
                  "references), own testing.TB (Fatal/Skip = runtime.Goexit in the test goroutine), per-test watchdog (servers stopped, test counted as failed), "
                  "wire-level monitor (Get ALL + VerifSessions + VerifPendingIDs after every test; election ids recorded by a wrapping GRIBIServer), "
                  "fault wrappers around *server.Server (faults.go)"],
-        assumptions=["PARTIAL: Coq proves reset / start-state and counter irrelevance / order independence for scripts that satisfy Contract, and a finite verdict table "
+        assumptions=["designated tests: for omit_fib every test of compliance.TestSuite that declares RequiresFIBACK (enumerated from the suite at run time), for "
+                     "omit_fib_for_deletes_only those of them that delete entries, must fail - each run concurrently on its own fresh faulty server (the same batch "
+                     "must pass concurrently on the reference); only the 16 transcribed tests are also judged by the model (designated_of, by computation), every "
+                     "other test is judged by the harness alone",
+                     "all clients of a suite run share one long-lived gRPC channel per server, handed to fluent through WithStub: a test that does not close its "
+                     "Modify session leaves it registered and is reported ([test-does-not-reset], PARAMS_DIFFER failures of later tests)",
+                     "PARTIAL: Coq proves reset / start-state and counter irrelevance / order independence for scripts that satisfy Contract, and a finite verdict table "
                      "for 16 transcribed tests x 15 faulty servers (7 requirements, most of them broken in more than one way: per recipient / per kind of operation / per table / per scope); that each Go compliance test is such a script is not proved - the harness samples permutations, "
                      "election bases and VRF names on the real suite and checks the contract's effects on the wire",
                      "the fault catalogue is a finite list of single-requirement wrappers (model and Go), not 'every faulty server'; for each fault the designated tests are named in harness/cmd/vh-c19/c19.go",
